@@ -76,7 +76,7 @@ def k_str2xml(ctx):
         return
     e_out, r_out = outs[:len(enum)], outs[len(enum):]
     v = ["From Coq Require Import List NArith.", "From Gama Require Import Strings StringsRun.", "Import ListNotations.",
-         "Definition alpha : str := [%s]." % "; ".join(str(c) for c in ALPHA),
+         "Definition alpha : str := [%s]%%N." % "; ".join(str(c) for c in ALPHA),
          "Definition outs : list (nat * N) := [%s]." % "; ".join(tr(o) for o in e_out),
          'Goal True. idtac "@@ENUM". Abort.',
          "Eval vm_compute in x2x_enum_mismatches (strings_upto alpha %d) outs." % maxlen,
